@@ -8,6 +8,7 @@ Table == ("alpha.jkl" :> [len |-> 5, tld |-> "jkl"]) @@ ("beta.jkl" :> [len |-> 
       @@ ("gamma.ibc" :> [len |-> 5, tld |-> "ibc"]) @@ ("abc.jkl" :> [len |-> 3, tld |-> "jkl"])
       @@ ("freeone.jkl" :> [len |-> 7, tld |-> "jkl"]) @@ ("longername.ibc" :> [len |-> 10, tld |-> "ibc"])
       @@ ("abcdef.jkl" :> [len |-> 6, tld |-> "jkl"])
+      @@ ("alpha.ibc" :> [len |-> 5, tld |-> "ibc"])   \* the twin of alpha.jkl under the other TLD
       @@ ("myjkl.jkl" :> [len |-> 5, tld |-> "jkl"]) @@ ("tokenibc.ibc" :> [len |-> 8, tld |-> "ibc"])   \* labels that contain the TLD's letters
 MCNameInfo == [n \in Names |-> Table[n]]
 CONSTANTS PriceAmts
